@@ -296,26 +296,42 @@ FileStep(k, rec) ==
      /\ Require(rec.ret # "Ok" \/ rec.fault = "ENOSPC" \/ rec.file = "equal", k, rec, "C19", "Ok returned but the file does not hold the in-memory rendering")
 
 (* ---------------- WASM facade on the host: setter program, then one export (C17) ---------------- *)
+\* the native builder registers the harness used ("the same settings") are the ones the model maps the options onto,
+\* except where a malformed value leaves the register unspecified
+SameSettings(w, nr) == LET mr == NativeOf(w) IN
+  /\ nr.layers = mr.layers /\ nr.margin = mr.margin /\ nr.hasImage = mr.hasImage /\ nr.image = mr.image /\ nr.imgShape = mr.imgShape
+  /\ nr.size = mr.size /\ nr.gap = mr.gap
+  /\ ("bg" \in w.havoc \/ nr.bg = mr.bg) /\ ("module" \in w.havoc \/ nr.dot = mr.dot) /\ ("imgBg" \in w.havoc \/ nr.imgBg = mr.imgBg)
+  /\ ("pos" \in w.havoc \/ nr.pos = mr.pos)
+\* the projected documents agree except in the fields a havoc register feeds
+ObsEqualModulo(o, no, hv) ==
+  /\ o.wellformed = no.wellformed /\ o.root = no.root /\ o.viewbox = no.viewbox /\ o.kinds = no.kinds
+  /\ Len(o.rects) = Len(no.rects) /\ Len(o.layers) = Len(no.layers) /\ Len(o.images) = Len(no.images)
+  /\ \A i \in DOMAIN o.rects : i \in DOMAIN no.rects =>
+        /\ o.rects[i].w = no.rects[i].w /\ o.rects[i].h = no.rects[i].h /\ o.rects[i].rx = no.rects[i].rx
+        /\ ((i = 2 /\ "pos" \in hv) \/ (o.rects[i].x = no.rects[i].x /\ o.rects[i].y = no.rects[i].y))
+        /\ ((i = 1 /\ "bg" \in hv) \/ (i = 2 /\ "imgBg" \in hv) \/ o.rects[i].fill = no.rects[i].fill)
+  /\ \A i \in DOMAIN o.layers : i \in DOMAIN no.layers =>
+        /\ o.layers[i].cells = no.layers[i].cells /\ o.layers[i].strays = no.layers[i].strays /\ o.layers[i].parsed = no.layers[i].parsed
+        /\ ("module" \in hv \/ (o.layers[i].fill = no.layers[i].fill /\ o.layers[i].stroke = no.layers[i].stroke))
+  /\ \A i \in DOMAIN o.images : i \in DOMAIN no.images =>
+        /\ o.images[i].href = no.images[i].href /\ o.images[i].w = no.images[i].w /\ o.images[i].h = no.images[i].h
+        /\ ("pos" \in hv \/ (o.images[i].x = no.images[i].x /\ o.images[i].y = no.images[i].y))
 WasmSvgStep(k, rec) ==
   LET w == W_After(rec.program)
       b == [input |-> rec.content, ecl |-> w.ecl, mode |-> -1, version |-> w.version, mask |-> -1]
       expect == ExpectedOutcome(b)
       nat == rec.native.out
-      reg == NativeOf(w) o == rec.obs
   IN /\ Require(rec.kind = "Ok", k, rec, "C17", "entry point or setter trapped: " \o rec.kind)
      /\ (rec.kind = "Ok" =>
-          /\ Require(rec.native.opts.ecl = w.ecl /\ rec.native.opts.version = w.version, k, rec, "TOOL", "harness and model disagree on the level/version registers")
+          /\ Require(rec.native.opts.ecl = w.ecl /\ rec.native.opts.version = w.version /\ SameSettings(w, RegsAfter(rec.native_program)), k, rec, "TOOL",
+                      "harness and model disagree on what the same settings are")
           /\ IF expect # "Ok" THEN Require(rec.empty = 1, k, rec, "C17", "content cannot be encoded but the SVG export is not empty")
              ELSE /\ Require(rec.empty = 0, k, rec, "C17", "empty SVG export for encodable content")
                   /\ ((rec.empty = 0 /\ nat.kind = "Ok") =>
                         /\ Require(w.havoc # {} \/ rec.native_eq = 1, k, rec, "C17", "SVG export differs from the native builder output for the same settings")
-                        /\ (o.wellformed = 1 =>
-                              /\ Require(SvgStructure(reg, nat.size, o) /\ SvgLayerCount(reg, o) /\ SvgCells(reg, nat.size, nat.vals, o) /\ SvgImage(reg, o),
-                                          k, rec, "C17", "SVG export does not draw the native symbol with the configured shape, margin and image")
-                              /\ Require("bg" \in w.havoc \/ SvgBackground(reg, o), k, rec, "C17", "background colour differs from the configured one")
-                              /\ Require("module" \in w.havoc \/ SvgLayerColors(reg, o), k, rec, "C17", "module colour differs from the configured one")
-                              /\ ("pos" \in w.havoc \/ FrameChecks(k, rec, reg, o, nat.size, "C17"))
-                              /\ Require(~reg.hasImage \/ "imgBg" \in w.havoc \/ Len(o.rects) < 2 \/ o.rects[2].fill = reg.imgBg.txt, k, rec, "C17", "frame colour differs from the configured one"))))
+                        /\ Require(ObsEqualModulo(rec.obs, rec.nobs, w.havoc), k, rec, "C17",
+                                    "SVG export differs from the native builder output in a part the options determine (structure, cells, colours, image, frame)")))
 WasmQrStep(k, rec) ==
   LET b == [input |-> rec.content, ecl |-> "none", mode |-> -1, version |-> -1, mask |-> -1]
       expect == ExpectedOutcome(b)
